@@ -412,7 +412,7 @@ func FreeStmt(rt *rapid.T) AnyStmt {
 		}
 		return AnyStmt{Kind: "dml", DML: &s}
 	case "create":
-		s := model.Stmt{Kind: "create", Table: Ident(rt, "table", tablePool), Cols: Columns(rt, 6)}
+		s := model.Stmt{Kind: "create", Table: Ident(rt, "table", tablePool), Cols: ColumnsW(rt, 6, true)}
 		return AnyStmt{Kind: "dml", DML: &s}
 	case "create_db":
 		return AnyStmt{Kind: "create_db", Name: IdentX(rt, "db", []string{"d1", "d2", "shop"})}
